@@ -356,15 +356,25 @@ class Program:
     def add_case(self, label: str, tree: Any, ops: List[Operand], keys: List[str], spec_fn: Callable[[List[SV]], Spec], stmt: str,
                  sources: Sequence[Source], out_col: Optional[str], chars: bool, pre: Sequence[Any] = (),
                  all_ops: Optional[List[Operand]] = None, as_condition: bool = False,
-                 absent_fn: Optional[Callable[[Dict[str, Any]], List[str]]] = None) -> None:
+                 absent_fn: Optional[Callable[[Dict[str, Any]], List[str]]] = None,
+                 fix: Optional[Callable[[Dict[str, Any]], None]] = None) -> None:
         """One output column (or condition) of one SELECT level.  The case quantifies over ALL columns of its sources (so
         that the native replay can fill whole rows); `ops` / `keys` are the columns the expression may read."""
         every = all_ops if all_ops is not None else [o for s in sources for o in s.ops.values()]
         keys_all = [self.key(s, c) for s in sources for c in s.ops]
         rt = self.rt
+        grid = self.make_grid(every, sources, fix)
+        # measures this expression does not read get harmless values in the native run, so that an error raised by ANOTHER
+        # output column of the same statement (e.g. a zero divisor there) is not attributed to this one
+        reads = {self.eng.col_key(c) for c in tree.find_all(exp.Column)}
+        id_ops = {o.name for s in sources for c, o in s.ops.items() if c in dict(s.struct.ids)}
+        dflt = {"Integer": 1, "Number": 1, "Boolean": True, "Date": 0}
+        benign = {o.name: (dflt.get(o.kind, "x" * max(1, o.length)))
+                  for o, k in zip(every, keys_all) if k.lower() not in reads and o.name not in id_ops}
 
         def native_fn(values: Sequence[Any]) -> Tuple[str, Any]:
             vals = {o.name: v for o, v in zip(every, values)}
+            vals.update(benign)
             absent = absent_fn(vals) if absent_fn else []
             r = rt.native_rows(stmt, sources, vals, absent)
             if r[0] == "error":
@@ -375,9 +385,22 @@ class Program:
             if len(rows) != 1:
                 return ("norow", None)
             return ("value", rows[0].get(out_col))
-        self.cases.append(Case(label, f"{stmt} :: {label}", every, spec_fn_wrap(spec_fn, every, ops), list(pre),
-                               "cstr" if chars else "atom", tree=tree, env_keys=keys_all, native_fn=native_fn,
+        self.cases.append(Case(label, " ".join(stmt.split()), every, spec_fn_wrap(spec_fn, every, ops), list(pre),
+                               "cstr" if chars else "atom", grid=grid, tree=tree, env_keys=keys_all, native_fn=native_fn,
                                as_condition=as_condition))
+
+    def make_grid(self, every: List[Operand], sources: Sequence[Source], fix: Optional[Callable[[Dict[str, Any]], None]]
+                  ) -> List[Tuple[Any, ...]]:
+        """Concrete rows for the model-vs-DuckDB comparison of this case: random picks from the pools, then `fix` makes them
+        satisfy the case's precondition (equal identifiers of matched rows, absent branch rows all NULL)."""
+        rng = self.rt.pv.rng
+        out = []
+        for _ in range(ROW_GRID):
+            vals = {o.name: rng.choice(PF.pool_for(o)) for o in every}
+            if fix is not None:
+                fix(vals)
+            out.append(tuple(vals[o.name] for o in every))
+        return out
 
     # ---------------------------------------------------------------------------------------------------------------
     def verify_join(self, op: str, operands: List[Any], sel: exp.Select, frm: Any, joins: List[Any], where: str, chars: bool
@@ -401,14 +424,22 @@ class Program:
             return None
         stmt = self.statement_for(sel, [la, rb])
         srcs = [la, rb]
-        ids_eq = lambda svs, every: And(*[Eq(val(svs[every.index(la.ops[n])]), val(svs[every.index(rb.ops[n])])) for n in common])  # noqa: E731
         every = [o for s in srcs for o in s.ops.values()]
+        ix = {o.name: i for i, o in enumerate(every)}
 
         def on_spec(svs: List[SV]) -> Spec:
-            return Spec.value(SV("bool", ids_eq(svs, every), False))
+            return Spec.value(SV("bool", And(*[Eq(val(svs[ix[la.ops[n].name]]), val(svs[ix[rb.ops[n].name]])) for n in common]), False))
+
+        def sometimes_equal(vals: Dict[str, Any]) -> None:
+            if self.rt.pv.rng.random() < 0.6:
+                for n in common:
+                    vals[rb.ops[n].name] = vals[la.ops[n].name]
+
+        def equal_ids(vals: Dict[str, Any]) -> None:
+            for n in common:
+                vals[rb.ops[n].name] = vals[la.ops[n].name]
         self.add_case(f"{where}: datapoints are matched exactly on the common identifiers {common}", j.args["on"],
-                      every, [], lambda svs: on_spec(svs), stmt, srcs, None, chars, as_condition=True, all_ops=every)
-        self.cases[-1].spec_fn = on_spec
+                      every, [], on_spec, stmt, srcs, None, chars, as_condition=True, all_ops=every, fix=sometimes_equal)
         # output columns
         all_ids = sorted({n for n, _ in la.struct.ids} | {n for n, _ in rb.struct.ids})
         lm, rm = [n for n, _ in la.struct.meas], [n for n, _ in rb.struct.meas]
@@ -447,7 +478,7 @@ class Program:
             def spec_fn(svs: List[SV], op: str = op) -> Spec:
                 return op_spec(self.eng, op, [svs[0], svs[1]])
             self.add_case(f"{where}: column {p.alias} = a.{m} {op} b.{rmn} on matched datapoints", p.this, [oa, ob], [], spec_fn, stmt,
-                          srcs, p.alias, chars, pre=pre_eq)
+                          srcs, p.alias, chars, pre=pre_eq, fix=equal_ids)
             out_meas.append((p.alias, self.result_kind(op, lk[m])))
         return Struct(out_ids, out_meas)
 
@@ -510,14 +541,30 @@ class Program:
             pair = [csrc, s2]
             ev2 = [o for s in pair for o in s.ops.values()]
 
-            def on_spec(svs: List[SV], s2: Source = s2, ev2: List[Operand] = ev2) -> Spec:
-                return Spec.value(SV("bool", And(*[Eq(val(svs[ev2.index(csrc.ops[n])]), val(svs[ev2.index(s2.ops[n])])) for n in idn]),
+            ix2 = {o.name: i for i, o in enumerate(ev2)}
+
+            def on_spec(svs: List[SV], s2: Source = s2, ix2: Dict[str, int] = ix2) -> Spec:
+                return Spec.value(SV("bool", And(*[Eq(val(svs[ix2[csrc.ops[n].name]]), val(svs[ix2[s2.ops[n].name]])) for n in idn]),
                                      False))
+
+            def sometimes_equal(vals: Dict[str, Any], s2: Source = s2) -> None:
+                if self.rt.pv.rng.random() < 0.6:
+                    for n in idn:
+                        vals[s2.ops[n].name] = vals[csrc.ops[n].name]
             # native: only this branch present, the other absent; a row always exists (LEFT JOIN), so ON is observed through
             # the branch's identifier column being non-NULL in the result - replaced by a direct INNER JOIN statement
             on_sql = f'SELECT 1 AS ok FROM "{cds}" AS cond INNER JOIN "{t[1]}" AS {al} ON {j.args["on"].sql(dialect="duckdb")}'
             self.add_case(f"{where}: branch {al} is matched exactly on the identifiers {idn}", j.args["on"], ev2, [], on_spec, on_sql,
-                          pair, None, False, as_condition=True, all_ops=ev2)
+                          pair, None, False, as_condition=True, all_ops=ev2, fix=sometimes_equal)
+
+        def fix_if(vals: Dict[str, Any]) -> None:
+            for _al, s in bsrc.items():
+                if self.rt.pv.rng.random() < 0.35:
+                    for o in s.ops.values():
+                        vals[o.name] = None
+                else:
+                    for n in idn:
+                        vals[s.ops[n].name] = vals[csrc.ops[n].name]
 
         def cval(svs: List[SV]) -> Any:
             c = sp_cmp(cop, svs[ix[csrc.ops[cme].name]], const_sv(self.eng, ck, False)).alts[0][1]
@@ -535,7 +582,7 @@ class Program:
             return None
         self.add_case(f"{where}: a datapoint is kept iff the selected operand (then: condition TRUE; else: FALSE or NULL) has a partner",
                       wh.this, every, [], lambda svs: Spec.value(SV("bool", chosen(svs), False)), stmt, srcs, None, False, pre=pre,
-                      all_ops=every, as_condition=True, absent_fn=absent_fn)
+                      all_ops=every, as_condition=True, absent_fn=absent_fn, fix=fix_if)
         projs = list(sel.expressions)
         ref = bsrc.get("t") or bsrc.get("e")
         meas = [n for n, _ in ref.struct.meas]
@@ -559,16 +606,20 @@ class Program:
                 sp.unspec = Not(chosen(svs))         # rows that are not kept have no value
                 return sp
             self.add_case(f"{where}: column {p.alias} = measure {m} of the selected operand", p.this, every, [], spec_fn, stmt, srcs,
-                          p.alias, False, pre=pre, all_ops=every, absent_fn=absent_fn)
+                          p.alias, False, pre=pre, all_ops=every, absent_fn=absent_fn, fix=fix_if)
         return Struct(list(csrc.struct.ids), list(ref.struct.meas))
 
 
 def spec_fn_wrap(spec_fn: Callable[[List[SV]], Spec], every: List[Operand], ops: List[Operand]) -> Callable[[List[SV]], Spec]:
     """The case quantifies over all columns of its sources; the specification reads `ops` (or everything when ops == every)."""
-    if ops is every or ops == every:
+    if ops is every:
         return spec_fn
-    idx = [every.index(o) for o in ops]
+    pos = {o.name: i for i, o in enumerate(every)}
+    idx = [pos[o.name] for o in ops]
     return lambda svs: spec_fn([svs[i] for i in idx])
+
+
+ROW_GRID = 10
 
 
 def row_obligations(pv: Prover) -> Dict[str, Any]:
